@@ -31,7 +31,8 @@ WORLD_RULE = ("worlds = principals (Ed25519, RSA, did:web, did:mailto) + a main 
 PROPS = {
     "C01": {
         "manifest": {"text": "Theorem C01_sound (all worlds, all DAG shapes, all policies, any Derives, any fuel): whenever the model's Access returns an authorization, it is rooted in the invocation and is a complete valid chain (ClaimOk: every token in window and authentic - issuer's key / authority key / valid session / resolved key -, every proof cited, available and delegated to the citing issuer, ability/resource resolved by the C16-proved pattern functions, Derives accepted, root entitled by the can-issue policy). The model is tied to validator.Access by running both on generated worlds built from real keys and tokens; every authorization the implementation returns is re-checked by an executable chain checker against ground-truth signatures.", "design_ref": '5.1', "note": VALIDATOR_NOTE},
-        "obligations": ob("UcantoModel.Props.C01", "V.sound_all", "V.C01_sound", "V.C01_no_chain", "V.verifySig_ok"),
+        "obligations": ob("UcantoModel.Props.C01", "V.sound_all", "V.C01_sound", "V.C01_no_chain", "V.verifySig_ok")
+                       + ob("UcantoModel.Props.Termination", "V.C01_unauthorized", "V.access_terminates"),
         "rule": WORLD_RULE, "trusted_base": VALIDATOR_TRUSTED,
         "assumptions": ["hard observable for C01: an authorization returned by the implementation must also be returned by the model (refusals are C06's subject) and its spine must pass the executable chain checker"],
     },
@@ -55,7 +56,10 @@ PROPS = {
         "rule": WORLD_RULE + "; 3/7 of the worlds revoke a random delegation", "trusted_base": VALIDATOR_TRUSTED,
     },
     "C06": {
-        "obligations": [],
+        "manifest": {"text": "Theorems C06_complete (a valid chain exists and nothing is revoked => for every fuel the result is never Unauthorized), access_terminates (on well-founded worlds - proofs are older than the token citing them, as content addressing guarantees - the search finishes within fuelBound), C06_found (hence Access returns an authorization, and it is a valid chain rooted in the invocation), C06_fuel_independent / stable (the answer does not depend on fuel). The specification ClaimOk speaks of membership only, so order of proofs, duplicates, decoys, further capabilities and inline-vs-resolver supply cannot matter. Correspondence: worlds with valid chains under permutation, decoy, duplicate, link-only and unresolvable-proof decorations; hard observable: a refusal by the implementation must be a refusal by the model.", "design_ref": "5.6", "note": VALIDATOR_NOTE + "; goroutines in ResolveMatch are outside the model (each match has one source, so the search order is deterministic)"},
+        "obligations": ob("UcantoModel.Props.C06", "V.C06_complete", "V.C06_never_refused", "V.C06_valid", "V.C06_fuel_independent", "V.complete_all")
+                       + ob("UcantoModel.Lemmas.Stable", "V.stable", "V.claim_deterministic")
+                       + ob("UcantoModel.Props.Termination", "V.terminates_all", "V.access_terminates", "V.C06_found"),
         "rule": WORLD_RULE, "trusted_base": VALIDATOR_TRUSTED,
     },
     "C16": {
